@@ -569,7 +569,10 @@ func (k Keeper) LimitOrderBid(ctx sdk.Context) error {
 							k.DeleteUserLimitBidData(ctx, auction.DebtAssetId, auction.CollateralAssetId, premiumPerc.TruncateInt(), individualBids.BidderAddress)
 
 							k.UpdateUserLimitBidDataForAddress(ctx, individualBids, false)
-							return nil
+							// the used-up deposit leaves the protocol total as well
+							protocolData, _ := k.GetLimitBidProtocolDataByAssetID(ctx, auction.DebtAssetId, auction.CollateralAssetId)
+							protocolData.BidValue = protocolData.BidValue.Sub(auction.DebtToken.Amount)
+							return k.SetLimitBidProtocolData(ctx, protocolData)
 						}
 						individualBids.DebtToken.Amount = individualBids.DebtToken.Amount.Sub(auction.DebtToken.Amount)
 						individualBids.BiddingId = append(individualBids.BiddingId, biddingId)
